@@ -220,11 +220,17 @@ func leaseShape(c *choose.Ctx, h *[32]byte, tunnel *uint32) {
 	}
 }
 
+// leaseSkew: end dates in wire order are deliberately neither ascending nor descending and contain a tie
+// (3 1 4 1 5 9 2 6 ...), so that anything that sorts, dedups or takes an extremum of the leases in place shows.
+func leaseSkew(i int) uint64 {
+	return uint64([]int{3, 1, 4, 1, 5, 9, 2, 6, 5, 3, 5, 8, 9, 7, 9, 3}[i%16])
+}
+
 func leases(c *choose.Ctx) []refmodel.Lease {
 	n := []int{1, 0, 2, 16}[c.Pick("nleases", 4)]
 	var out []refmodel.Lease
 	for i := 0; i < n; i++ {
-		l := refmodel.Lease{Hash: hash("gw", uint64(i)), TunnelID: uint32(i + 1), EndMs: LeaseEndMs + uint64(i)}
+		l := refmodel.Lease{Hash: hash("gw", uint64(i)), TunnelID: uint32(i + 1), EndMs: LeaseEndMs + leaseSkew(i)*1000}
 		if i == 0 {
 			leaseShape(c, &l.Hash, &l.TunnelID)
 		}
@@ -237,7 +243,7 @@ func leases2(c *choose.Ctx, menu []int) []refmodel.Lease2 {
 	n := menu[c.Pick("nleases", len(menu))]
 	var out []refmodel.Lease2
 	for i := 0; i < n; i++ {
-		l := refmodel.Lease2{Hash: hash("gw2", uint64(i)), TunnelID: uint32(i + 1), EndSec: LeaseEndSec + uint32(i)}
+		l := refmodel.Lease2{Hash: hash("gw2", uint64(i)), TunnelID: uint32(i + 1), EndSec: LeaseEndSec + uint32(leaseSkew(i))}
 		if i == 0 {
 			leaseShape(c, &l.Hash, &l.TunnelID)
 		}
